@@ -105,7 +105,10 @@ pub fn search(seed: u64, n: u64) {
                 for _ in 0..k { let s = rand_shape(&mut rng); kinds.push(s.kind); set.push(redirect(&mut rng, &s.path)); }
                 let dirs: Vec<bool> = set.iter().map(|p| signed_area(&flatten(p)) > 0.0).collect();
                 let mixed = dirs.iter().any(|d| *d != dirs[0]);
-                let class = if k == 1 { "single_simple_shape".to_string() } else { format!("set_of_{}.{}", k, if mixed { "mixed_directions" } else { "same_direction" }) };
+                // recognisable special configurations of the input (as for C01): a vertex of one sub-path exactly on / within 0.1 of another's boundary
+                let singles: Vec<Vec<P>> = set.iter().map(|p| vec![p.clone()]).collect();
+                let contact = contact_suffix_all(&singles.iter().collect::<Vec<_>>());
+                let class = if k == 1 { "single_simple_shape".to_string() } else { format!("set_of_{}.{}{}", k, if mixed { "mixed_directions" } else { "same_direction" }, contact) };
                 stats.count(&format!("input.{}", class));
                 for kd in &kinds { stats.count(&format!("kind.{}", kd)); }
                 let o = Operand::new(&set);
